@@ -249,7 +249,7 @@ func (x *Ctx) Quiesce(bound time.Duration) bool {
 			n.WaitDown(time.Second)
 			if err := n.Restart(); err != nil {
 				x.Note("restart %s failed: %v", id, err)
-				x.M.AddViolation(mon.Violation{Props: []string{"C14", "C13"}, Sig: "restart-failed", Node: id, Msg: fmt.Sprintf("node %s could not be created/started over its directory after %q: %v", id, n.LastCrash, err)})
+				x.M.AddViolation(mon.Violation{Props: restartProps(err), Sig: "restart-failed", Node: id, Msg: fmt.Sprintf("node %s could not be created/started over its directory after %q: %v", id, n.LastCrash, err)})
 			}
 		}
 	}
@@ -434,6 +434,9 @@ func (x *Ctx) Finish() {
 		if ws.C16PrecondFail != "" {
 			x.Inconclusive("%s", ws.C16PrecondFail)
 		}
+		if ws.C17PrecondFail != "" {
+			x.Inconclusive("%s", ws.C17PrecondFail)
+		}
 		x.M.Lock()
 		x.M.Counts["c16.windows"] += ws.C16Windows
 		x.M.Counts["c17.windows"] += ws.C17Windows
@@ -476,6 +479,8 @@ type Profile struct {
 	Reads       bool
 	LeaseReads  bool
 	Torn        bool
+	CrashBias   bool
+	Bounce      bool // in-process Stop+Restart on the same object as a step kind
 	StepGapMaxMs int
 }
 
@@ -556,6 +561,13 @@ func RandomSchedule(x *Ctx, pf Profile) {
 		if pf.Crash {
 			kinds = append(kinds, "crash", "crash-plan", "crash-plan", "restart", "restart", "crash-all")
 		}
+		if pf.Bounce {
+			kinds = append(kinds, "bounce", "bounce", "bounce")
+		}
+		if pf.CrashBias {
+			// crash-point coverage runs: mostly planned crashes at storage boundaries, followed by restarts
+			kinds = []string{"crash-plan", "crash-plan", "crash-plan", "crash-plan", "restart", "restart", "restart", "partition", "heal", "heal", "isolate-leader", "pause"}
+		}
 		switch k := kinds[r.Intn(len(kinds))]; k {
 		case "partition":
 			if len(all) < 2 {
@@ -611,6 +623,16 @@ func RandomSchedule(x *Ctx, pf Profile) {
 			x.Step("crash %s", id)
 			x.C.Node(id).Crash("async")
 			x.C.Node(id).WaitDown(time.Second)
+		case "bounce":
+			up := x.C.UpIDs()
+			if len(up) == 0 {
+				continue
+			}
+			id := pick(r, up)
+			x.Step("bounce %s (Stop + Restart on the same object)", id)
+			if err := x.C.Node(id).Bounce(); err != nil {
+				x.M.AddViolation(mon.Violation{Props: []string{"C18"}, Sig: "restart-error", Node: id, Msg: fmt.Sprintf("Restart() after Stop() returned %v", err)})
+			}
 		case "crash-plan":
 			up := x.C.UpIDs()
 			if len(up) == 0 {
@@ -618,6 +640,12 @@ func RandomSchedule(x *Ctx, pf Profile) {
 			}
 			id := pick(r, up)
 			p := RandomPlan(r, pf.Snapshots, pf.Torn)
+			if pf.Bounce {
+			kinds = append(kinds, "bounce", "bounce", "bounce")
+		}
+		if pf.CrashBias {
+				p.Nth = 1 + r.Intn(2)
+			}
 			pos := "before"
 			if p.After {
 				pos = "after"
@@ -638,7 +666,7 @@ func RandomSchedule(x *Ctx, pf Profile) {
 			x.Step("restart %s", id)
 			x.C.Node(id).WaitDown(time.Second)
 			if err := x.C.Node(id).Restart(); err != nil {
-				x.M.AddViolation(mon.Violation{Props: []string{"C14", "C13"}, Sig: "restart-failed", Node: id, Msg: fmt.Sprintf("node %s could not be created/started over its directory after %q: %v", id, x.C.Node(id).LastCrash, err)})
+				x.M.AddViolation(mon.Violation{Props: restartProps(err), Sig: "restart-failed", Node: id, Msg: fmt.Sprintf("node %s could not be created/started over its directory after %q: %v", id, x.C.Node(id).LastCrash, err)})
 			}
 		case "crash-all":
 			x.Step("crash all")
@@ -655,7 +683,7 @@ func RandomSchedule(x *Ctx, pf Profile) {
 			x.Step("restart %v", sub)
 			for _, id := range sub {
 				if err := x.C.Node(id).Restart(); err != nil {
-					x.M.AddViolation(mon.Violation{Props: []string{"C14", "C13"}, Sig: "restart-failed", Node: id, Msg: fmt.Sprintf("node %s could not be created/started over its directory after %q: %v", id, x.C.Node(id).LastCrash, err)})
+					x.M.AddViolation(mon.Violation{Props: restartProps(err), Sig: "restart-failed", Node: id, Msg: fmt.Sprintf("node %s could not be created/started over its directory after %q: %v", id, x.C.Node(id).LastCrash, err)})
 				}
 			}
 		}
@@ -669,4 +697,14 @@ func RandomSchedule(x *Ctx, pf Profile) {
 		x.Note("final write not acknowledged")
 		x.NT("no-final-write")
 	}
+}
+
+// restartProps: a node that cannot be created over its directory breaks C14 (and C13 by construction of the
+// storages); when the log is what cannot be reopened, also C12 and C06 (the persistent log is gone or corrupt).
+func restartProps(err error) []string {
+	props := []string{"C14", "C13"}
+	if err != nil && strings.Contains(err.Error(), "log") {
+		props = append(props, "C12", "C06")
+	}
+	return props
 }
